@@ -457,5 +457,206 @@ theorem diagH_sound {a o : Obj K} {Da : Mx K} (ha : Sound a Da) (hca : IsDiagCls
     injection h with h; subst h
     exact ⟨linH_sound ha, rfl, rfl⟩
 
+
+/-- Gram matrix of a (square) diagonal matrix -/
+theorem gram_of_diag (k : Nat) (D : Mx K)
+    (hD : ∀ i j, i < k → j < k → D i j = if i = j then D i i else 0) (i j : Nat)
+    (hi : i < k) (hj : j < k) :
+    matMul k (matH D) D i j = if i = j then star (D i i) * D i i else 0 := by
+  unfold matMul matH
+  have : ∀ l, l < k → conj (D l i) * D l j = if l = i then (if i = j then star (D i i) * D i i else 0) else 0 := by
+    intro l hl
+    rw [hD l i hl hi, hD l j hl hj]
+    by_cases h1 : l = i
+    · subst h1
+      by_cases h2 : l = j
+      · subst h2; simp [conj_eq_star]
+      · simp [h2]
+    · simp [h1, conj_eq_star]
+  rw [sumTo_congr this, sumTo_ite_eq]
+  simp [hi]
+
+/-- `gram_op` of the three classes -/
+theorem diagGram_sound {a o : Obj K} {Da : Mx K} (ha : Sound a Da) (hca : IsDiagCls a.md.cls)
+    (h : diagGram Cfg.fixed a = .ok o) :
+    Sound o (matMul a.m (matH Da) Da) ∧ o.md.inShape = a.md.inShape ∧ o.md.outShape = a.md.inShape := by
+  unfold diagGram at h
+  rcases hca with hc | hc | hc
+  · simp only [hc] at h
+    by_cases hsq : isSquare a = true
+    · have hsq' := (isSquare_iff a).mp hsq
+      simp only [Cfg.fixed, hsq, Bool.not_true, Bool.and_false, Bool.false_eq_true, if_false] at h
+      have hmn : a.m = a.n := by simp only [Obj.m, Obj.n, hsq']
+      obtain ⟨hS, hi, ho⟩ := rediag_map_sound ha (Or.inl hc) (fun t => star t * t) (by simp) _ _ h (by
+        rcases ha.mode with h | h
+        · exact Or.inl h
+        · refine Or.inr ⟨?_, ?_⟩
+          · simp only [Obj.diagonal, hc]; exact h.datC
+          · intro t ht; injection ht with ht; rw [← ht]; exact h.inC)
+      obtain ⟨hom, hon⟩ := sizes_of_shapes hi ho
+      refine ⟨hS.congr (fun i j hi' hj' => ?_), hi, by rw [ho, hsq']⟩
+      have hsqD := diag_square ha (Or.inl hc) hsq'
+      have hi2 : i < a.n := by rw [← hmn, ← hom]; exact hi'
+      have hj2 : j < a.n := by rw [← hon]; exact hj'
+      rw [hmn, gram_of_diag a.n Da hsqD i j hi2 hj2, hsqD i j hi2 hj2]
+      by_cases hij : i = j <;> simp [hij]
+    · simp only [Cfg.fixed, hsq, Bool.not_false, Bool.and_self, if_true] at h
+      injection h with h; subst h
+      exact ⟨linGram_sound _ ha, rfl, rfl⟩
+  · simp only [hc] at h
+    injection h with h; subst h
+    obtain ⟨hio, hDa⟩ := sid_payload ha (Or.inl hc)
+    have hmn : a.m = a.n := by simp only [Obj.m, Obj.n, hio]
+    refine ⟨mkSid_on ha (Or.inl hc) _ _ _ (fun i j hi hj => ?_), rfl, rfl⟩
+    have hsqD : ∀ i j, i < a.n → j < a.n → Da i j = if i = j then Da i i else 0 := by
+      intro i j hi hj
+      rw [hDa i j hi hj, hDa i i hi hi]; simp
+    rw [hmn, gram_of_diag a.n Da hsqD i j hi hj, hDa i i hi hi]
+    by_cases hij : i = j <;> simp [hij, conj_eq_star, mul_comm]
+  · simp only [hc] at h
+    injection h with h; subst h
+    obtain ⟨hio, hDa⟩ := sid_payload ha (Or.inr hc)
+    have hmn : a.m = a.n := by simp only [Obj.m, Obj.n, hio]
+    have h1 : a.dat.get 0 = 1 := by
+      have := ha.pl; simp only [PayloadIs, hc] at this; exact this.2.1
+    refine ⟨ha.congr (fun i j hi hj => ?_), rfl, hio.symm⟩
+    have hsqD : ∀ i j, i < a.n → j < a.n → Da i j = if i = j then Da i i else 0 := by
+      intro i j hi hj
+      rw [hDa i j hi hj, hDa i i hi hi]; simp
+    have hi2 : i < a.n := hmn ▸ hi
+    rw [hmn, gram_of_diag a.n Da hsqD i j hi2 hj, hDa i j hi2 hj, hDa i i hi2 hi2, h1]
+    by_cases hij : i = j <;> simp [hij]
+
+
+theorem linCall_sound (cfg : Cfg) {a b o : Obj K} {Da Db : Mx K} (ha : Sound a Da) (hb : Sound b Db)
+    (h : linCall cfg a b = .ok o) :
+    Sound o (matMul a.n Da Db) ∧ o.md.inShape = b.md.inShape ∧ o.md.outShape = a.md.outShape := by
+  unfold linCall at h
+  have hbl : b.cls.isLinop = true := by
+    have := hb.lin
+    simp only [Obj.cls, Cls.isLinop, bne_iff_ne, ne_eq]; exact this
+  rw [if_pos hbl] at h
+  refine ⟨linComp_sound ha hb h, ?_, ?_⟩ <;>
+  · unfold linComp at h
+    split at h
+    · cases h
+    · split at h
+      · cases h
+      · injection h with h; subst h; rfl
+
+/-- `ScaledIdentity.__matmul__` -/
+theorem sidMatmul_sound {a b o : Obj K} {Da Db : Mx K} (ha : Sound a Da) (hb : Sound b Db)
+    (hca : a.md.cls = .scaledId ∨ a.md.cls = .ident) (h : sidMatmul Cfg.fixed a b = .ok o) :
+    Sound o (matMul a.n Da Db) ∧ o.md.inShape = b.md.inShape ∧ o.md.outShape = a.md.outShape := by
+  obtain ⟨hio, hDa⟩ := sid_payload ha hca
+  unfold sidMatmul at h
+  by_cases hbd : b.cls.isSub .diag = true
+  · rw [if_pos hbd] at h
+    have hbD : IsDiagCls b.md.cls := (isSub_diag_iff _).mp hbd
+    simp only [Cfg.fixed, if_true] at h
+    split at h
+    · cases h
+    · rename_i hsh
+      have hsh' : a.md.inShape = b.md.outShape := by simpa using hsh
+      have hk : a.n = b.m := by simp only [Obj.n, Obj.m, hsh']
+      split at h
+      · rename_i hbs
+        have hbS := (isSub_sid_iff _).mp hbs
+        obtain ⟨hbio, hDb⟩ := sid_payload hb hbS
+        have hbn : b.n = b.m := by simp only [Obj.n, Obj.m, hbio]
+        injection h with h; subst h
+        refine ⟨mkSid_on ha hca _ _ _ (fun i j hi hj => ?_), ?_, hio⟩
+        · rw [matMul_sid_left a.n Da Db _ hDa i j hi, hDb i j (by omega) (by omega)]
+          by_cases hij : i = j <;> simp [hij]
+        · show a.md.inShape = b.md.inShape
+          rw [hsh', hbio]
+      · obtain ⟨hS, hi, ho⟩ := rediag_map_sound hb hbD (fun t => a.dat.get 0 * t) (by simp) _ none h (by
+          rcases ha.mode with h | h
+          · exact Or.inl h
+          · exact Or.inr ⟨rt_complex_left h.datC, by simp⟩)
+        obtain ⟨hom, hon⟩ := sizes_of_shapes hi ho
+        refine ⟨hS.congr (fun i j hi' hj' => ?_), hi, by rw [ho, ← hsh', hio]⟩
+        have hi2 : i < a.n := by rw [hk, ← hom]; exact hi'
+        rw [matMul_sid_left a.n Da Db _ hDa i j hi2]
+  · rw [if_neg hbd] at h
+    exact linCall_sound _ ha hb h
+
+/-- the side condition under which `Diagonal @ Diagonal` is covered by `diagMatmul_sound`:
+    both diagonal arrays have the same shape and the right operand is square
+    (no broadcasting *between* the two diagonals) -/
+def DiagProductPlain (a b : Obj K) : Prop :=
+  a.diagonal.2.1 = b.diagonal.2.1 ∧ b.md.inShape = b.md.outShape
+
+/-- `Diagonal.__matmul__` -/
+theorem diagMatmul_sound {a b o : Obj K} {Da Db : Mx K} (ha : Sound a Da) (hb : Sound b Db)
+    (hca : IsDiagCls a.md.cls) (h : diagMatmul Cfg.fixed a b = .ok o)
+    (hR : IsDiagCls b.md.cls → DiagProductPlain a b) :
+    Sound o (matMul a.n Da Db) ∧ o.md.inShape = b.md.inShape ∧ o.md.outShape = a.md.outShape := by
+  unfold diagMatmul at h
+  by_cases hbd : b.cls.isSub .diag = true
+  · rw [if_pos hbd] at h
+    have hbD : IsDiagCls b.md.cls := (isSub_diag_iff _).mp hbd
+    obtain ⟨hss, hbsq⟩ := hR hbD
+    simp only [Cfg.fixed, if_true] at h
+    split at h
+    · rename_i hsh
+      have hk : a.n = b.m := by simp only [Obj.n, Obj.m, hsh]
+      obtain ⟨hsa, hDa, _, hza⟩ := diagonal_spec ha hca
+      obtain ⟨hsb, hDb, hmb, hzb⟩ := diagonal_spec hb hbD
+      -- both operators are square on the same shape
+      have hab : a.md.inShape = b.md.inShape := by rw [hsh, hbsq]
+      have haout : a.md.outShape = b.md.outShape := by
+        rw [hab, hss, hsb] at hsa; injection hsa with hsa; exact hsa.symm
+      have hasq : a.md.inShape = a.md.outShape := by rw [hsh, haout]
+      have hbn : b.n = b.m := by simp only [Obj.n, Obj.m, hbsq]
+      have han : a.n = a.m := by simp only [Obj.n, Obj.m, hasq]
+      rcases hda : a.diagonal with ⟨da, sa, ta⟩
+      rcases hdb : b.diagonal with ⟨db, sb, tb⟩
+      simp only [hda, hdb] at h hss hDa hza hDb hzb hmb
+      subst hss
+      rw [bshapeS_self] at h
+      simp only at h
+      have hbdiag : b.diagonal.2.1 = sa := by rw [hdb]
+      rw [← hbdiag] at h
+      obtain ⟨hS, hi, ho⟩ := rediag_same_sound hb hbD _ _ none h (by
+        rcases ha.modeDat hca with h | h
+        · exact Or.inl h
+        · refine Or.inr ⟨?_, by simp⟩
+          rw [hda] at h; exact rt_complex_left h)
+      obtain ⟨hom, hon⟩ := sizes_of_shapes hi ho
+      refine ⟨hS.congr (fun i j hi' hj' => ?_), hi, by rw [ho, haout]⟩
+      have hi2 : i < a.n := by rw [hk, ← hom]; exact hi'
+      have hj2 : j < b.n := by rw [← hon]; exact hj'
+      have hib : i < b.n := by rw [hbn, ← hom]; exact hi'
+      have hsqA := diag_square ha hca hasq
+      have hsqB := diag_square hb hbD hbsq
+      -- right-hand side: product of two diagonal matrices
+      have hR : matMul a.n Da Db i j = if i = j then Da i i * Db i i else 0 := by
+        unfold matMul
+        have : ∀ l, l < a.n → Da i l * Db l j = if i = l then (if i = j then Da i i * Db i i else 0) else 0 := by
+          intro l hl
+          rw [hsqA i l hi2 hl]
+          by_cases h1 : i = l
+          · subst h1
+            rw [hsqB i j hib hj2]
+            by_cases h2 : i = j <;> simp [h2]
+          · simp [h1]
+        rw [sumTo_congr this, sumTo_ite_eq']; simp [hi2]
+      rw [hR, hDa i i (han ▸ hi2) hi2, hDb i i (hbn ▸ hib) hib]
+      unfold diagMx
+      rw [hbdiag, ← hbsq, bidxS_self _ i (by simpa [Obj.n] using hib), ← hasq,
+        bidxS_self _ i (by simpa [Obj.n] using hi2), hab]
+      by_cases hij : i = j
+      · subst hij
+        simp only [if_true, trunc_get]
+        by_cases hq : bidxS b.md.inShape sa i < sa.size
+        · simp only [hq, if_true]
+          rw [bidxS_self _ _ hq]
+        · rw [hza _ (Nat.le_of_not_lt hq)]; simp [hq]
+      · simp [hij]
+    · cases h
+  · rw [if_neg hbd] at h
+    exact linCall_sound _ ha hb h
+
 end
 end Scico.OpAlg
